@@ -2909,5 +2909,329 @@ theorem wired_spawnChildren {ds} {h : Heap} (w : WiredX ds h) {g : Id} (kg : h.k
     (k5 g _ (k4 g _ (k3 g _ (k2 g _ (k1 g _ kg)))))
   exact ⟨w6, fun i kk e => k6 i kk (k5 i kk (k4 i kk (k3 i kk (k2 i kk (k1 i kk e)))))⟩
 
+
+theorem wired_observe_self {ds} {h : Heap} (w : WiredX ds h) (x : Id) : WiredX ds (observe h x x [.all]) := by
+  refine wired_regs w (fun i => by simp) (fun r hr => ?_)
+  rcases mem_observe hr with h0 | ⟨c, nm, hc, hnm, rfl⟩
+  · exact Or.inl h0
+  · right
+    simp at hnm; subst hnm
+    exact ⟨by rw [← disp_exact w.toStruct]; exact hc, Or.inl ⟨rfl, rfl⟩⟩
+
+theorem wired_observe_link {ds} {h : Heap} (w : WiredX ds h) {o x : Id} (hl : Link h o x) :
+    WiredX ds (observe h x o (namesFor h o x)) := by
+  refine wired_regs w (fun i => by simp) (fun r hr => ?_)
+  rcases mem_observe hr with h0 | ⟨c, nm, hc, hnm, rfl⟩
+  · exact Or.inl h0
+  · right
+    exact ⟨by rw [← disp_exact w.toStruct]; exact hc, Or.inr ⟨hnm, hl⟩⟩
+
+/-- a layer that belongs to a layer set: its layer set and font -/
+theorem layerCtx_of_live {ds} {h : Heap} (st : Struct ds h) {l s : Id} (kl : h.kindOf l = some .layer)
+    (hs : h.storedLayerSet l = some s) : ∃ f, LayerCtx h l s f := by
+  obtain ⟨nl, el, knl⟩ := kindOf_some kl
+  have ps : nl.pLayerSet = some s := by simpa [Heap.storedLayerSet, el] using hs
+  have ol : h.ownerOf l = some s := by rw [ownerOf_eq el]; simp [owner, knl, ps]
+  obtain ⟨nS, eS, _, hkS, _⟩ := owner_kind st el (by rw [← ownerOf_eq el]; exact ol)
+  have ks : h.kindOf s = some .layerSet := by rw [kindOf_eq eS, hkS knl]
+  have hfull := (st.full l nl el).2 knl (by simp [ps])
+  rw [ancOf_ne st ol (by rw [ks]; simp)] at hfull
+  cases eo : h.ownerOf s with
+  | none => rw [ancOf_none st eo] at hfull; exact absurd rfl hfull
+  | some f =>
+    obtain ⟨nf, ef, hkf, _⟩ := owner_kind st eS (by rw [← ownerOf_eq eS]; exact eo)
+    have kf : h.kindOf f = some .font := by rw [kindOf_eq ef, hkf (hkS knl)]
+    exact ⟨f, kl, ol, ks, eo, kf⟩
+
+theorem wired_ensure {ds} {h : Heap} (w : WiredX ds h) {p : Id} {k : Kind}
+    (h1 : h.kindOf p = some .glyph → k.isLeaf = true)
+    (h2 : h.kindOf p = some .layer → k = .lib) (h3 : h.kindOf p = some .font → k = .lib) :
+    WiredX ds (ensure h p k) := by
+  unfold ensure
+  split
+  · exact w
+  · cases ep : h.kindOf p with
+    | none => exact w
+    | some kp =>
+      obtain ⟨np, enp, knp⟩ := kindOf_some ep
+      cases kp with
+      | glyph => exact wired_spawnInGlyph w ep (h1 ep)
+      | layer =>
+        have := h2 ep; subst this
+        exact wired_spawn w enp (by simp [knp, allowed]) (spawnOK_libInLayer ep)
+      | font =>
+        have := h3 ep; subst this
+        exact wired_spawn w enp (by simp [knp, allowed]) (spawnOK_libInFont ep)
+      | layerSet => exact w
+      | contour => exact w
+      | component => exact w
+      | anchor => exact w
+      | guideline => exact w
+      | image => exact w
+      | lib => exact w
+
+
+theorem ownerOf_spawn {h : Heap} {p : Id} {n' : Node} {i : Id} {q : Id} (e : h.ownerOf i = some q) :
+    (spawn h p n').ownerOf i = some q := by
+  obtain ⟨n, en, eo⟩ := ownerOf_some e
+  have hi : i ≠ h.next := fun e2 => by rw [e2, get_next] at en; cases en
+  simp only [Heap.ownerOf, get_spawn, get_addKid, get_alloc]
+  by_cases e1 : p = i
+  · subst e1; simp [hi, en]; simpa [owner] using eo
+  · simp [e1, hi, en, eo]
+
+theorem get_spawn_new {h : Heap} {p : Id} {n' : Node} (hp : p ≠ h.next) : (spawn h p n').get h.next = some n' := by
+  simp [get_spawn, get_addKid, get_alloc, hp]
+
+@[simp] theorem next_addReg (h : Heap) (r : Reg) : (h.addReg r).next = h.next := by
+  unfold Heap.addReg; split <;> rfl
+
+@[simp] theorem next_observe (h : Heap) (x o : Id) (names : List NName) : (observe h x o names).next = h.next := by
+  unfold observe
+  split
+  · rfl
+  · rename_i c _
+    have : ∀ (h : Heap), (names.foldl (fun h nm => h.addReg ⟨c, o, x, nm⟩) h).next = h.next := by
+      intro h
+      induction names generalizing h with
+      | nil => rfl
+      | cons nm ns ih => simp [List.foldl_cons, ih]
+    exact this h
+
+@[simp] theorem next_addKid (h : Heap) (p x : Id) : (h.addKid p x).next = h.next := by simp [Heap.addKid]
+
+@[simp] theorem next_spawn (h : Heap) (p : Id) (n' : Node) : (spawn h p n').next = h.next + 1 := by
+  simp [spawn]
+
+@[simp] theorem next_setName (h : Heap) (x : Id) (s : String) : (h.setName x s).next = h.next := rfl
+
+/-- `LayerSet.newLayer` and the font's reaction -/
+theorem wired_addLayer {ds} {h : Heap} (w : WiredX ds h) {f s : Id} (name : String)
+    (ks : h.kindOf s = some .layerSet) (os : h.ownerOf s = some f) (kf : h.kindOf f = some .font) :
+    WiredX ds (addLayer h f s name) ∧
+    (∀ i k, h.kindOf i = some k → (addLayer h f s name).kindOf i = some k) ∧
+    (∀ i q, h.ownerOf i = some q → (addLayer h f s name).ownerOf i = some q) ∧
+    LayerCtx (addLayer h f s name) h.next s f ∧ (addLayer h f s name).next = h.next + 1 := by
+  obtain ⟨nS, eS, knS⟩ := kindOf_some ks
+  have hfs : ancOf h .font s ≠ none := by rw [ancOf_eq w.toStruct os kf]; simp
+  have w1 := wired_spawn w eS (by simp [knS, allowed]) (spawnOK_layerInSet ks hfs)
+  let h1 := spawn h s { kind := .layer, pLayerSet := some s }
+  have hsn : s ≠ h.next := fun e => by rw [e, get_next] at eS; cases eS
+  have el : h1.get h.next = some { kind := .layer, pLayerSet := some s } := get_spawn_new hsn
+  have c1 : LayerCtx h1 h.next s f :=
+    ⟨by rw [kindOf_eq el], by rw [ownerOf_eq el]; simp [owner], kindOf_spawn ks, ownerOf_spawn os, kindOf_spawn kf⟩
+  have w2 : WiredX ds (h1.setName h.next name) := wired_regs w1 (fun i => rfl) (fun r hr => Or.inl hr)
+  have c2 : LayerCtx (h1.setName h.next name) h.next s f := c1.transfer rfl rfl rfl
+  have hl : Link (h1.setName h.next name) f h.next := Or.inr ⟨c2.kl, c2.centre w2.toStruct⟩
+  have w3 := wired_observe_link w2 hl
+  have g3 : ∀ i, (addLayer h f s name).get i = h1.get i := fun i => by simp [addLayer, h1]
+  refine ⟨w3, fun i k e => ?_, fun i q e => ?_, ?_, ?_⟩
+  · rw [kindOf_congr g3]; exact kindOf_spawn e
+  · rw [ownerOf_congr g3]; exact ownerOf_spawn e
+  · exact c1.transfer (g3 _) (g3 _) (g3 _)
+  · simp [addLayer]
+
+theorem wired_newFontCore {ds} {h : Heap} (w : WiredX ds h) :
+    WiredX ds (newFontCore h) ∧
+    (∀ i k, h.kindOf i = some k → (newFontCore h).kindOf i = some k) ∧
+    (newFontCore h).kindOf h.next = some .font ∧ (newFontCore h).kindOf (h.next + 1) = some .layerSet ∧
+    (newFontCore h).ownerOf (h.next + 1) = some h.next ∧ (newFontCore h).next = h.next + 2 := by
+  unfold newFontCore
+  simp only
+  have w1 : WiredX ds (h.alloc { kind := .font }) := wired_alloc w .font
+  let h1 := h.alloc { kind := .font }
+  have e1 : h1.get h.next = some { kind := .font } := by simp [h1, get_alloc]
+  have w2 : WiredX ds (observe h1 h.next h.next [.all]) := wired_observe_self w1 h.next
+  let h2 := observe h1 h.next h.next [.all]
+  have e2 : h2.get h.next = some { kind := .font } := by simp [h2, e1]
+  have k2 : h2.kindOf h.next = some .font := by rw [kindOf_eq e2]
+  have w3 := wired_spawn w2 e2 (by simp [allowed]) (spawnOK_setInFont k2)
+  have n2 : h2.next = h.next + 1 := by simp [h2, h1]
+  have hne : h.next ≠ h2.next := by rw [n2]; exact Nat.ne_of_lt (Nat.lt_succ_self _)
+  have e3 : (spawn h2 h.next { kind := .layerSet, pFont := some h.next }).get h2.next =
+      some { kind := .layerSet, pFont := some h.next } := get_spawn_new hne
+  rw [n2] at e3
+  refine ⟨w3, fun i k e => ?_, kindOf_spawn k2, by rw [kindOf_eq e3], by rw [ownerOf_eq e3]; simp [owner], ?_⟩
+  · apply kindOf_spawn
+    obtain ⟨n, en, kn⟩ := kindOf_some e
+    have hi : i ≠ h.next := fun e2 => by rw [e2, get_next] at en; cases en
+    simp [Heap.kindOf, h2, h1, get_alloc, hi, en, kn]
+  · simp [h2, h1]
+
+
+/-! ### A layer's glyphs -/
+
+theorem findNamed_some {h : Heap} {p : Id} {k : Kind} {name : String} {r : Id} (e : h.findNamed p k name = some r) :
+    r ∈ h.kidsOf p ∧ h.kindOf r = some k := by
+  unfold Heap.findNamed at e
+  have h1 := List.find?_some e
+  have h2 := List.mem_of_find?_eq_some e
+  simp only [decide_eq_true_eq] at h1
+  exact ⟨h2, h1.1⟩
+
+/-- a glyph listed by a live layer: what `wired_killGlyph` needs -/
+theorem glyph_of_live_layer {h : Heap} (w : Wired h) {l s f r : Id} (c : LayerCtx h l s f)
+    (hr : r ∈ h.kidsOf l) (kr : h.kindOf r = some .glyph) :
+    ∃ nr, h.get r = some nr ∧ nr.kind = .glyph ∧ h.ownerOf r = some l ∧ dispOf h r ≠ none := by
+  obtain ⟨nr, er, knr⟩ := kindOf_some kr
+  obtain ⟨nl, el, _⟩ := kindOf_some c.kl
+  have lalive : h.alive l := ⟨nl, el, Or.inr (by rw [← ownerOf_eq el, c.ol]; simp)⟩
+  have ho := w.down l r lalive (by simp) hr
+  exact ⟨nr, er, knr, ho, by rw [disp_of_owned_by_layer w.toStruct c ho]; simp⟩
+
+theorem get_killGlyph {h : Heap} (w : Wired h) {l r : Id} {nr : Node} (er : h.get r = some nr)
+    (kr : nr.kind = .glyph) (ho : h.ownerOf r = some l) (i : Id) (hi : i ≠ r) (hoi : h.ownerOf i ≠ some r) :
+    (killGlyph h l r).get i = if l = i then (h.get l).map (fun n => { n with kids := n.kids.filter (· ≠ r) }) else h.get i := by
+  unfold killGlyph
+  have w' : WiredX [l] h := wired_mono w (fun d hd => by simp at hd)
+  have hlr : r ≠ l := fun e => by
+    subst e
+    obtain ⟨n, np, en, _, ep, hm, ha⟩ := ownerOf_node w.toStruct ho
+    rw [en] at ep; cases ep
+    cases hk : n.kind <;> simp [hk, allowed, Kind.isLeaf] at ha
+  have g := (wired_endGlyph w' er kr ho (by simp) (by simp [hlr])).2.1
+  rw [get_unlist, g, g]
+  have kgl : h.kindOf r = some .glyph := by rw [kindOf_eq er, kr]
+  by_cases e : l = i
+  · subst e
+    have : h.ownerOf l ≠ some r := hoi
+    simp [Ne.symm hlr, this]
+  · simp [e, hi, hoi]
+
+theorem kindOf_killGlyph {h : Heap} (w : Wired h) {l r : Id} {nr : Node} (er : h.get r = some nr)
+    (kr : nr.kind = .glyph) (ho : h.ownerOf r = some l) {i : Id} {k : Kind} (e : h.kindOf i = some k) :
+    (killGlyph h l r).kindOf i = some k := by
+  unfold killGlyph
+  have w' : WiredX [l] h := wired_mono w (fun d hd => by simp at hd)
+  have hlr : r ≠ l := fun e => by
+    subst e
+    obtain ⟨n, np, en, _, ep, hm, ha⟩ := ownerOf_node w.toStruct ho
+    rw [en] at ep; cases ep
+    cases hk : n.kind <;> simp [hk, allowed, Kind.isLeaf] at ha
+  have g := (wired_endGlyph w' er kr ho (by simp) (by simp [hlr])).2.1
+  obtain ⟨n, en, kn⟩ := kindOf_some e
+  have gi : ∃ n', (endGlyph h l r).get i = some n' ∧ n'.kind = k := by
+    rw [g]
+    by_cases c : dispOf h r ≠ none ∧ (i = r ∨ h.ownerOf i = some r)
+    · rw [if_pos c, en]; exact ⟨_, rfl, by simp [Node.cleared, kn]⟩
+    · rw [if_neg c, en]; exact ⟨_, rfl, kn⟩
+  obtain ⟨n', en', kn'⟩ := gi
+  simp only [Heap.kindOf, get_unlist]
+  by_cases e1 : l = i
+  · subst e1; simp [en', kn']
+  · simp [e1, en', kn']
+
+@[simp] theorem next_unobserve (h : Heap) (x o : Id) (names : List NName) : (unobserve h x o names).next = h.next := by
+  unfold unobserve; split <;> rfl
+@[simp] theorem next_clear (h : Heap) (x : Id) : (h.clear x).next = h.next := by simp [Heap.clear]
+@[simp] theorem next_endSelf (h : Heap) (x : Id) : (endSelf h x).next = h.next := by simp [endSelf]
+@[simp] theorem next_unlist (h : Heap) (p x : Id) : (h.unlist p x).next = h.next := by simp [Heap.unlist]
+@[simp] theorem next_detachChild (h : Heap) (g x : Id) : (detachChild h g x).next = h.next := by
+  unfold detachChild; split <;> simp
+@[simp] theorem next_detachSingleton (h : Heap) (p x : Id) : (detachSingleton h p x).next = h.next := by
+  unfold detachSingleton; split <;> simp
+@[simp] theorem next_stepG (g : Id) (h : Heap) (k : Id) : (stepG g h k).next = h.next := by
+  unfold stepG; split <;> simp
+theorem next_foldl {α} (f : Heap → α → Heap) (hf : ∀ h a, (f h a).next = h.next) (xs : List α) (h : Heap) :
+    (xs.foldl f h).next = h.next := by
+  induction xs generalizing h with
+  | nil => rfl
+  | cons x xs ih => rw [List.foldl_cons, ih, hf]
+@[simp] theorem next_endGlyph (h : Heap) (l g : Id) : (endGlyph h l g).next = h.next := by
+  rw [endGlyph_eq]; split
+  · rfl
+  · simp [next_foldl _ (next_stepG g)]
+@[simp] theorem next_killGlyph (h : Heap) (l r : Id) : (killGlyph h l r).next = h.next := by simp [killGlyph]
+
+
+/-- letting go of the glyph stored under a name (if any) keeps the layer as it is -/
+def dropNamed (h : Heap) (l : Id) (name : String) : Heap :=
+  match h.findNamed l .glyph name with
+  | some r => killGlyph h l r
+  | none => h
+
+def glyphNode (h : Heap) (l : Id) : Node :=
+  { kind := .glyph, pLayer := some l, pLayerSet := h.storedLayerSet l, pFont := (h.storedLayerSet l).bind h.storedFont }
+
+theorem addGlyph_eq (h : Heap) (l : Id) (name : String) :
+    addGlyph h l name =
+      ((spawn (dropNamed h l name) l (glyphNode (dropNamed h l name) l)).setName (dropNamed h l name).next name).dropUnloaded l name := rfl
+
+theorem wired_dropNamed {h : Heap} (w : Wired h) {l s f : Id} (c : LayerCtx h l s f) (name : String) :
+    Wired (dropNamed h l name) ∧ LayerCtx (dropNamed h l name) l s f ∧
+    (∀ i k, h.kindOf i = some k → (dropNamed h l name).kindOf i = some k) ∧ (dropNamed h l name).next = h.next := by
+  unfold dropNamed
+  cases e : h.findNamed l .glyph name with
+  | none => exact ⟨w, c, fun i k e => e, rfl⟩
+  | some r =>
+    obtain ⟨hr, kr⟩ := findNamed_some e
+    obtain ⟨nr, er, knr, ho, hd⟩ := glyph_of_live_layer w c hr kr
+    simp only
+    refine ⟨wired_killGlyph w er knr ho (by simp) hd, ?_, fun i k e => kindOf_killGlyph w er knr ho e, by simp⟩
+    have ne : ∀ i, h.kindOf i ≠ some .glyph → i ≠ r := fun i hk e => hk (e ▸ kr)
+    have notown : ∀ i q, h.ownerOf i = some q → q ≠ r → h.ownerOf i ≠ some r := fun i q e hq e2 => by
+      rw [e] at e2; cases e2; exact hq rfl
+    have gl := get_killGlyph w er knr ho l (ne l (by rw [c.kl]; simp))
+      (notown l s c.ol (ne s (by rw [c.ks]; simp)))
+    have gs := get_killGlyph w er knr ho s (ne s (by rw [c.ks]; simp))
+      (notown s f c.os (ne f (by rw [c.kf]; simp)))
+    have gf := get_killGlyph w er knr ho f (ne f (by rw [c.kf]; simp)) (by rw [ownerOf_font c.kf]; simp)
+    have hls : l ≠ s := fun e => by have := c.kl; rw [e, c.ks] at this; cases this
+    have hlf : l ≠ f := fun e => by have := c.kl; rw [e, c.kf] at this; cases this
+    simp only [hls, hlf, if_false, if_true] at gl gs gf
+    obtain ⟨nl, el, knl⟩ := kindOf_some c.kl
+    refine ⟨?_, ?_, ?_, ?_, ?_⟩
+    · simp [Heap.kindOf, gl, el, knl]
+    · have := c.ol; rw [ownerOf_eq el] at this
+      simp only [Heap.ownerOf, gl, el, Option.map_some, Option.bind_some]
+      simpa [owner] using this
+    · simp only [Heap.kindOf, gs]; exact c.ks
+    · simp only [Heap.ownerOf, gs]; exact c.os
+    · simp only [Heap.kindOf, gf]; exact c.kf
+
+theorem wired_addGlyph {h : Heap} (w : Wired h) {l s : Id} (kl : h.kindOf l = some .layer)
+    (hs : h.storedLayerSet l = some s) (name : String) :
+    Wired (addGlyph h l name) ∧ (∀ i k, h.kindOf i = some k → (addGlyph h l name).kindOf i = some k) ∧
+    (addGlyph h l name).kindOf h.next = some .glyph ∧ (addGlyph h l name).next = h.next + 1 := by
+  obtain ⟨f, c⟩ := layerCtx_of_live w.toStruct kl hs
+  obtain ⟨w1, c1, k1, n1⟩ := wired_dropNamed w c name
+  rw [addGlyph_eq]
+  generalize dropNamed h l name = h1 at w1 c1 k1 n1
+  obtain ⟨nl, el, knl⟩ := kindOf_some c1.kl
+  obtain ⟨nS, eS, knS⟩ := kindOf_some c1.ks
+  have sl : h1.storedLayerSet l = some s := by
+    have := c1.ol; rw [ownerOf_eq el] at this
+    simp only [owner, knl] at this
+    simp [Heap.storedLayerSet, el, this]
+  have sf : h1.storedFont s = some f := by
+    have := c1.os; rw [ownerOf_eq eS] at this
+    simp only [owner, knS] at this
+    simp [Heap.storedFont, eS, this]
+  have ok : SpawnOK h1 l (glyphNode h1 l) := by
+    unfold glyphNode
+    rw [sl]; simp only [Option.bind_some, sf]
+    refine ⟨rfl, by simp [owner], by simp [Kind.isLeaf], ?_, by simp⟩
+    intro a
+    have a1 : ancVia h1 .layerSet (some l) = some s := by
+      simp only [ancVia, c1.kl]; simp
+      exact ancOf_eq w1.toStruct c1.ol c1.ks
+    have a2 : ancVia h1 .font (some l) = some f := by
+      simp only [ancVia, c1.kl]; simp
+      exact c1.centre w1.toStruct
+    refine ⟨by simp, ?_, ?_, ?_, by simp⟩
+    · intro e; simp at e; subst e; simp [ancVia, c1.kl]
+    · intro e; simp at e; subst e; exact a1
+    · intro e; simp at e; subst e; exact a2
+  have kgn : (glyphNode h1 l).kind = .glyph := rfl
+  have w2 := wired_spawn w1 el (by simp [knl, allowed, kgn]) ok
+  have hln : l ≠ h1.next := fun e => by rw [e, get_next] at el; cases el
+  refine ⟨wired_regs w2 (fun i => rfl) (fun r hr => Or.inl hr), fun i k e => ?_, ?_, ?_⟩
+  · show (spawn h1 l _).kindOf i = some k
+    exact kindOf_spawn (k1 i k e)
+  · show (spawn h1 l _).kindOf h.next = some .glyph
+    rw [← n1, kindOf_eq (get_spawn_new hln)]; rfl
+  · show (spawn h1 l _).next = h.next + 1
+    simp [n1]
+
 end Parents
 end DefconModel
